@@ -11,6 +11,9 @@ import collections
 from mmsa.core import Undecided, norm
 
 
+STATS = {'path_queries': 0, 'paths_enumerated': 0, 'dominator_computations': 0, 'cfgs_built': 0}
+
+
 class Node:
   __slots__ = ('id', 'kind', 'ast', 'expr', 'owner')
 
@@ -48,6 +51,7 @@ class Node:
 class CFG:
 
   def __init__(self, func_node):
+    STATS['cfgs_built'] += 1
     self.func = func_node
     self.nodes = []
     self.succ = collections.defaultdict(list)   # node -> [(node, label)]
@@ -219,6 +223,7 @@ class CFG:
     """Shortest path (list of (node, label-taken-to-reach)) from src to a node
     satisfying dst_pred that passes no node satisfying `avoid` (src exempt).
     Returns None when every path is blocked."""
+    STATS['path_queries'] += 1
     prev = {src: None}
     q = collections.deque([src])
     while q:
@@ -242,6 +247,7 @@ class CFG:
   def iteration_skipping(self, header, must, edge_ok=None):
     """A path that starts an iteration of the loop `header` (its 'iter'/'true' edge) and comes back to
     the header without passing any node of `must` (and without leaving the loop), or None."""
+    STATS['path_queries'] += 1
     starts = [m for m, lab in self.succ[header] if lab in ('iter', 'true')]
     must = set(must)
     for s0 in starts:
@@ -272,6 +278,7 @@ class CFG:
 
   def dominators(self, edge_ok=None):
     """node -> set of dominators (iterative; the graphs are tiny)."""
+    STATS['dominator_computations'] += 1
     nodes = [n for n in self.reachable(self.entry, edge_ok)]
     allset = set(nodes)
     dom = {n: set(allset) for n in nodes}
@@ -334,6 +341,7 @@ class CFG:
       n, path, used = stack.pop()
       if n is not src and dst_pred(n):
         count += 1
+        STATS['paths_enumerated'] += 1
         yield path
         if count >= max_paths:
           return
